@@ -115,6 +115,9 @@ def setup_worker(k):
     return w
 
 
+PRESURVIVED = set()  # mutants that built and passed the repository's tests in the run taken over (--reuse)
+
+
 def work(k, queue, lock, shards, done):
     w = setup_worker(k)
     repo, verif = w + "/repo", w + "/verif"
@@ -133,11 +136,14 @@ def work(k, queue, lock, shards, done):
         else:
             open(path, "wb").write(src[:m["start"]] + m["new"].encode() + src[m["end"]:])
             t0 = time.time()
-            rc, out = run(["go", "build", "./..."], repo, 300)
+            trusted = m["id"] in PRESURVIVED
+            rc, out = (0, "") if trusted else run(["go", "build", "./..."], repo, 300)
             if rc != 0:
                 res["status"] = "no-build"
             else:
-                rc, out = run(["go", "test", "-vet=off", "-count=1", "./..."], repo, 600)
+                rc, out = (0, "") if trusted else run(["go", "test", "-vet=off", "-count=1", "./..."], repo, 600)
+                if trusted:
+                    res["suite_verdict_from"] = "earlier run"
                 if rc != 0:
                     res["status"] = "killed-by-repo-tests"
                 else:
@@ -194,7 +200,12 @@ def main():
             for m in ms:
                 r = old.get(m["id"])
                 keep = (arg("--reuse-status") or "killed-by-repo-tests,no-build").split(",")
-                if not r or r["status"].split("(")[0] not in keep:
+                if not r:
+                    continue
+                if r["status"].split("(")[0] not in keep:
+                    if r["status"] == "survived" and "--trust-survived" in sys.argv and r["old"] == m["old"] and r["new"] == m["new"] and \
+                            subprocess.run(["git", "-C", "/repo", "diff", "--quiet", base, head, "--", m["file"]]).returncode == 0:
+                        PRESURVIVED.add(m["id"])
                     continue
                 same = subprocess.run(["git", "-C", "/repo", "diff", "--quiet", base, head, "--", m["file"]]).returncode == 0
                 if same and r["old"] == m["old"] and r["new"] == m["new"]:
